@@ -1,11 +1,16 @@
 /-
-Point-in-polygon over the reals (C12), part 1: the model functions of `Model/SphGeom.lean` at `α := ℝ`
+Point-in-polygon over the reals (C12), part 1 of 6: the model functions of `Model/SphGeom.lean` at `α := ℝ`
 (`isInLonRange`, the crossing test of `oddNumIntersectGoingSouth`), against their geometric meaning.
 
-* `is_in_lon_range_spec`   : the longitude-range predicate, exact statement (which end is closed, `|Δlon| = π`, `lon = 0`);
-* `lon_range_iff_sign`     : for a longitude that is not a vertex longitude, the range test is a sign condition on three sines;
-* `lonRange_iff_arc_meets` : ... which says exactly that the (shorter) great-circle arc `v1 v2` meets the meridian of `p`;
-* `crossing_test_geometric`: the complete test of one edge is true iff the arc crosses the meridian of `p` strictly south of `p`.
+* `is_in_lon_range_spec`    : the longitude-range predicate, exact statement (`LonRange`: which end is closed, `|Δlon| = π`,
+                              `lon = 0`), for every triple of reals;
+* `lonRange_iff_sign`       : for a longitude that is not a vertex longitude, the range test is a sign condition on three sines;
+* `lonRange_iff_arcMeets`   : ... which says exactly that the (shorter) great-circle arc `v1 v2` meets the meridian of `p`;
+* `crossing_test_geometric` : the complete test of one edge is true iff the arc crosses the meridian of `p` strictly south of `p`.
+
+Files: `PolyReal2` (the loop is a parity: `contains_parity`), `PolyReal3` (counting argument for convex polygons),
+`PolyReal4` (`contains_convex`: generic points), `PolyReal5` (`contains_convex_final`: every point off the boundary),
+`PolyReal6` (examples and counter-examples).
 -/
 import HpxVerif.Model.SphGeom
 import HpxVerif.Lemmas.NumReal
